@@ -483,7 +483,68 @@ func run(r *vt.Run, t vt.TB, s spec) {
 				r.Violation(t, cp, "error-without-hot-journal", "%s; handle opened before the crash whose first call comes after it: Select(t) fails (%v) although no transaction needs recovery", where0, ferr4)
 				return
 			}
-			for _, ob := range []observer{{"fresh handle", got, gerr}, {"handle opened before the crash", got2, gerr2}, {"fresh handle while another process holds a read lock", got3, gerr3}, {"handle opened before the crash and not used until after it", got4, gerr4}} {
+			// the same files reached under other names: through a symbolic link
+			// to the database file (SQLite keeps the journal next to the real
+			// file), and by a relative name with the working directory changed
+			// between Open and the read
+			f := filepath.Join(dir, "f.sqlite")
+			sqdb.Remove(f)
+			copyFile(work, f)
+			if jerr == nil {
+				copyFile(work+"-journal", f+"-journal")
+			}
+			linkDir := filepath.Join(dir, "links")
+			os.MkdirAll(linkDir, 0o755)
+			link := filepath.Join(linkDir, "via-link.sqlite")
+			os.Remove(link)
+			if err := os.Symlink(f, link); err != nil {
+				r.Harness(t, "symlink: %v", err)
+			}
+			got5, gerr5 := readAllSqlittle(link)
+			os.Remove(link)
+			// ... and through a symbolic link to a directory followed by "..":
+			// the kernel resolves the link first, so <dir>/lnk/../g.sqlite is
+			// <dir>/nest/g.sqlite (lnk -> nest/deep), not <dir>/g.sqlite
+			deep := filepath.Join(dir, "nest", "deep")
+			os.MkdirAll(deep, 0o755)
+			g := filepath.Join(dir, "nest", "g.sqlite")
+			sqdb.Remove(g)
+			copyFile(work, g)
+			if jerr == nil {
+				copyFile(work+"-journal", g+"-journal")
+			}
+			lnk := filepath.Join(dir, "lnk")
+			os.Remove(lnk)
+			if err := os.Symlink(deep, lnk); err != nil {
+				r.Harness(t, "symlink: %v", err)
+			}
+			got7, gerr7 := readAllSqlittle(lnk + "/../g.sqlite")
+			os.Remove(lnk)
+			var got6 map[string][][]interface{}
+			var gerr6 error
+			func() {
+				wd, err := os.Getwd()
+				if err != nil {
+					r.Harness(t, "getwd: %v", err)
+				}
+				defer os.Chdir(wd)
+				if err := os.Chdir(dir); err != nil {
+					r.Harness(t, "chdir: %v", err)
+				}
+				h, err := sqlittle.Open("f.sqlite")
+				if err != nil {
+					gerr6 = err
+					return
+				}
+				defer h.Close()
+				if err := os.Chdir(linkDir); err != nil {
+					r.Harness(t, "chdir: %v", err)
+				}
+				got6, gerr6 = readAllHandle(h)
+			}()
+			for _, ob := range []observer{{"fresh handle", got, gerr}, {"handle opened before the crash", got2, gerr2}, {"fresh handle while another process holds a read lock", got3, gerr3}, {"handle opened before the crash and not used until after it", got4, gerr4},
+				{"fresh handle opened through a symbolic link to the database file", got5, gerr5}, {"handle opened by a relative name, working directory changed before the read", got6, gerr6},
+				{"fresh handle opened by a name leading through a symbolic link to a directory and ..", got7, gerr7}} {
 				got, gerr := ob.got, ob.err
 				where := where0 + "; " + ob.name
 				if gerr != nil {
